@@ -57,6 +57,7 @@ type Stats struct {
 	BarriersBothSides, MaxKeyCalls, ResumedSplits                           int
 	ExitReasons                                                             []string
 	CkptsBeforeEnd                                                          int // snapshots in storage when all input had been processed
+	WMTicks                                                                 int // watermark ticks of the source runners (harness-driven)
 	HandlerPanics                                                           []string
 }
 
@@ -208,6 +209,9 @@ settle:
 				w.mu.Unlock()
 				w.Tick()
 				st.Ticks++
+			case "wmtick":
+				w.WatermarkTick()
+				st.WMTicks++
 			case "kill":
 				live := w.Live()
 				if len(live) == 0 {
@@ -505,6 +509,52 @@ func CheckDelivery(w *World, data map[string][]Rec, groups int) (barriersWithBot
 			}
 		}
 	}
+	// Every watermark is the largest timestamp its runner had seen when it was
+	// stamped, minus 1ns (C11). A runner broadcasts its watermarks, so its k-th
+	// watermark is the k-th in every operator's stream and carries one value; the
+	// record it was derived from was forwarded before it, i.e. precedes the k-th
+	// watermark in the stream of the operator it went to.
+	type wmKey struct {
+		runner string
+		k      int
+	}
+	wmVal := map[wmKey]int64{}
+	type recPos struct{ wmsBefore int }
+	recsAt := map[string]map[int64][]recPos{} // runner -> timestamp -> where its records sit
+	for opID, stream := range w.Delivered {
+		count := map[string]int{}
+		for _, d := range stream {
+			switch d.Kind {
+			case "wm":
+				count[d.From]++
+				key := wmKey{d.From, count[d.From]}
+				if v, ok := wmVal[key]; ok && v != d.WM {
+					return 0, hx.Errf("watermark number %d of %s reached %s as %d and another operator as %d", key.k, d.From, opID, d.WM, v)
+				}
+				wmVal[key] = d.WM
+			case "rec":
+				ts := int64(d.Rec.Idx+1) * int64(time.Second)
+				if recsAt[d.From] == nil {
+					recsAt[d.From] = map[int64][]recPos{}
+				}
+				recsAt[d.From][ts] = append(recsAt[d.From][ts], recPos{count[d.From]})
+			}
+		}
+	}
+	for key, v := range wmVal {
+		if v < 0 {
+			continue // nothing seen yet
+		}
+		ok := false
+		for _, rp := range recsAt[key.runner][v+1] {
+			if rp.wmsBefore < key.k {
+				ok = true
+			}
+		}
+		if !ok {
+			return 0, hx.Errf("watermark number %d of %s is %d, but no record with timestamp %d was forwarded by that runner before it: the watermark reached (or passed) what had been forwarded", key.k, key.runner, v, v+1)
+		}
+	}
 	total := 0
 	for split, recs := range data {
 		total += len(recs)
@@ -700,6 +750,11 @@ func GenProgram(rt *rapid.T, faults []string, maxFaults int) Program {
 			p.Faults[1] = Fault{At: b, Kind: "tick"}
 		}
 	}
+	// watermark ticks of the source runners, anywhere among the calls (they are not
+	// faults and do not count against the fault budget)
+	for i, nw := 0, rapid.IntRange(0, 8).Draw(rt, "wmticks"); i < nw; i++ {
+		p.Faults = append(p.Faults, Fault{At: rapid.IntRange(1, span).Draw(rt, "wmat"), Kind: "wmtick"})
+	}
 	p.LatencyUs = rapid.SliceOfN(rapid.SampledFrom([]int{0, 0, 0, 50, 300}), 0, 6).Draw(rt, "latency")
 	return p
 }
@@ -794,6 +849,8 @@ func RunSavepoint(p Program, c *hx.Case) (st SPStats, err error) {
 			switch f.Kind {
 			case "tick":
 				w.Tick()
+			case "wmtick":
+				w.WatermarkTick()
 			case "foldtick":
 				// start a periodic checkpoint and keep it pending (its
 				// acknowledgements wait at the transport) until the savepoint is requested
